@@ -3,7 +3,7 @@ import vlib, ptcp_common as pc
 
 COQ_TARGETS = ["Props/Properties_C10.vo"] + pc.COQ_TARGETS_COMMON
 META = dict(
-    text="proof (partial): Coq theorems: a packet with a different conversation number leaves the socket state and outputs exactly unchanged (any state, any bytes); packets shorter than 24 or longer than 65532 bytes only set the error code. 'No Fault for any byte string in any state' is NOT proved in Coq; it rests on the bit-exact correspondence under ASan/UBSan with a hostile stream (mutated legitimate packets, random headers, sequence/ack anywhere in the 32-bit space, every flag byte, hostile option lists with scale factors up to 255) where a failed g_assert on either side is an explicit ABORT token. The window clause is refuted for the unchanged code by a vm_compute witness (FIN flush) and listed as a known finding; any other window excess is reported.",
+    text="proof (partial): Coq theorems: a packet with a different conversation number leaves the socket state and outputs exactly unchanged (any state, any bytes); packets shorter than 24 or longer than 65532 bytes only set the error code; the receive FIFO cannot be overrun — for every sequence of offset writes (any payload, any peer-chosen offset), commits and reads the readable data stays within the capacity and no stored extent ends beyond the free space, a single write stores at most what fits, uncovered positions read as zero. 'No Fault for any byte string in any state' is NOT proved in Coq; it rests on the bit-exact correspondence under ASan/UBSan with a hostile stream (mutated legitimate packets, random headers, sequence/ack anywhere in the 32-bit space, every flag byte, hostile option lists with scale factors up to 255) where a failed g_assert on either side is an explicit ABORT token. The window clause is refuted for the unchanged code by a vm_compute witness (FIN flush) and listed as a known finding; any other window excess is reported.",
     note="trusted: as C08. Partial: no-Fault is established by sampling + sanitizers, not by proof. Known finding: attempt_send(sfFin) ignores the peer's window.",
     technique='Coq proof of foreign/malformed no-op + refutation witness; differential correspondence under sanitizers + window oracle')
 
